@@ -21,6 +21,9 @@ theirs that sub_mesh_pattern cannot notice stays silent).
              also 6) every point-free rectangle of boxes, shaded completely / minus one box /
              minus one column / minus one row; submesh + strongest for every index subset, and
              small q inside these patterns ("mimh_sound" / "mimh_complete").
+  scale      sub_mesh_pattern on long patterns (9..12, 31..34, thorough also 257) with sparse
+             index sets containing large indices, given as tuple / reversed tuple / list /
+             iterator / set / frozenset ("scale", "scale_strongest"); small q inside them ("mims_*").
   derived    contains / avoids / in / contained_in / avoided_by / count_occurrences_in agree
              with occurrences_in;  multi: contains/avoids with two arguments.
   types      q given as Perm (classical, viewed as unshaded), BivincularPatt, VincularPatt,
@@ -492,6 +495,111 @@ def shard_holes(shard):
     return part
 
 
+# --------------------------------------------------------------------------------------------
+# scale: long patterns, sparse index sets with large indices, several input forms
+# (sizes that straddle thresholds of the runtime: set tables of 8 / 32 slots, small ints <= 256)
+# --------------------------------------------------------------------------------------------
+
+FORMS = {
+    "tuple": lambda I: tuple(I),
+    "reversed": lambda I: tuple(reversed(I)),
+    "list": lambda I: list(I),
+    "iterator": lambda I: iter(I),
+    "set": lambda I: set(I),
+    "frozenset": lambda I: frozenset(I),
+}
+
+
+def scale_patterns(n):
+    """Underlying patterns of length n: i -> q*i mod n for the two multipliers nearest to
+    0.618*n and the one nearest to sqrt(n), identity, reverse identity, the rotation by n//2,
+    the two-block layered permutation with first block n//2."""
+    import math as _m
+    cop = [q for q in range(2, n) if _m.gcd(q, n) == 1]
+    qs = sorted(cop, key=lambda q: (abs(q - n * 0.618), q))[:2]
+    qs += [q for q in sorted(cop, key=lambda q: (abs(q - n ** 0.5), q)) if q not in qs][:1]
+    out = [tuple(q * i % n for i in range(n)) for q in qs]
+    ident = tuple(range(n))
+    c = n // 2
+    out += [ident, ident[::-1], tuple((i + c) % n for i in range(n)),
+            tuple(range(c - 1, -1, -1)) + tuple(range(n - 1, c - 1, -1))]
+    return dedup(out)
+
+
+def scale_shadings(n, heavy):
+    cells = R.all_cells(n)
+    out = [("empty", frozenset()), ("diagonal", frozenset((i, i) for i in range(n + 1)))]
+    if heavy:
+        out += [("all", frozenset(cells)),
+                ("checkerboard", frozenset(c for c in cells if (c[0] + c[1]) % 2 == 0)),
+                ("all-but-diagonal", frozenset(c for c in cells if c[0] != c[1]))]
+    return out
+
+
+def scale_index_sets(n, maxsmall):
+    """Sparse sets: every subset of size <= maxsmall of the probe positions
+    {0,1,2,7,8,9,31,32,33,255,256,257,n-2,n-1} (those < n).  Larger sets: the probe set, the
+    probe set minus each element, the even positions, the odd positions, everything, everything
+    minus each probe position."""
+    probe = sorted({i for i in (0, 1, 2, 7, 8, 9, 31, 32, 33, 255, 256, 257, n - 2, n - 1) if 0 <= i < n})
+    out = [I for r in range(maxsmall + 1) for I in itertools.combinations(probe, r)]
+    big = [tuple(probe)] + [tuple(i for i in probe if i != e) for e in probe]
+    big += [tuple(range(0, n, 2)), tuple(range(1, n, 2)), tuple(range(n))]
+    big += [tuple(i for i in range(n) if i != e) for e in probe]
+    return dedup(out + big)
+
+
+def shard_scale(shard):
+    n, pi, maxsmall, heavy, forms = shard
+    lib = _lib()
+    part = Partial()
+    patt = scale_patterns(n)[pi]
+    P = lib.Perm(patt)
+    sets = scale_index_sets(n, maxsmall)
+    for shname, sh in scale_shadings(n, heavy):
+        spec = mesh_spec(patt, sh)
+        try:
+            obj = lib.MeshPatt(P, spec[2])
+        except Exception as exc:  # noqa
+            part.violation("construct", {"kind": "mesh", "patt": list(patt), "shading_name": shname},
+                           {"exception": repr(exc)})
+            continue
+        for I in sets:
+            sub, reg = Y.region(patt, sh, I)
+            sem = Y.strongest_by_insertion(patt, sh, I)
+            assert reg == sem, ("the two references disagree", patt, shname, I)
+            for fname in forms:
+                case = None
+                try:
+                    got = result_of_sub(obj, FORMS[fname](I))
+                except Exception as exc:  # noqa
+                    case = dict(spec_case(spec), indices=list(I), form=fname)
+                    part.violation("scale", case, {"exception": repr(exc), "expected": [sub, sorted(reg)]})
+                    continue
+                if got != (sub, reg):
+                    case = dict(spec_case(spec), indices=list(I), form=fname)
+                    part.violation("scale", case, {"expected": [sub, sorted(reg)], "got": [got[0], sorted(got[1])],
+                                                   "shading_name": shname})
+                    part.violation("scale_strongest", case, {
+                        "expected": [sub, sorted(sem)], "got": [got[0], sorted(got[1])],
+                        "oracle": "cell shaded iff neither a point of p nor a point inserted in an unshaded box lies there"})
+                part.add(1, 1 if (0 < len(I) < n and max(I) >= 8) else 0)
+                part.bump("scale:calls")
+                part.bump("scale:n=%d" % n)
+        # small q inside the long pattern (one chosen point): exactly the sound occurrences
+        if n <= 12:
+            for qspec, q in _FAM["QH"]:
+                qsh = spec_shading(qspec)
+                strong = {I: Y.strongest_by_insertion(patt, sh, I) for I in classical(qspec[1], patt)}
+                exp = check_mim(part, qspec, q, spec, obj, strong, False, "mims", qsh)
+                part.add(1, 1 if (exp is not None and qsh and 0 < len(exp) < len(strong)) else 0)
+                part.bump("mims:pairs")
+    if not part.samples:
+        part.sample({"pattern_length": n, "pattern": list(patt) if n <= 12 else "q*i mod n / structured, see bounds",
+                     "index_sets": len(sets), "forms": list(forms)}, cap=1)
+    return part
+
+
 def shard_multi(shard):
     """p.contains(q1, q2) / p.avoids(q1, q2) / contained_in / avoided_by with two arguments."""
     qname, pname, lo, hi = shard
@@ -683,6 +791,32 @@ def run(ctx, only=None):
             "mimh": "q of length <= 1 with <= 1 or all cells shaded (8) inside every length-5 pattern of the family"
                     + ("" if quick else "; q of length 2 with <= 1 cell (20) inside those with sides >= 3")}
 
+    if want("scale"):
+        if "QH" not in _FAM:
+            build_family("QH", [s for s in fam_all(1) if len(s[2]) <= 1 or len(s[2]) == (len(s[1]) + 1) ** 2], ctx)
+        allforms = tuple(FORMS)
+        small = (9, 10, 12) if quick else (9, 10, 11, 12)
+        mid = (33, 34) if quick else (31, 32, 33, 34)
+        big = () if quick else (257,)
+        for n in small:
+            jobs += [(shard_scale, (n, pi, 3 if quick else 4, True, allforms)) for pi in range(len(scale_patterns(n)))]
+        for n in mid:
+            jobs += [(shard_scale, (n, pi, 2, True, allforms)) for pi in range(len(scale_patterns(n)))]
+        for n in big:
+            jobs += [(shard_scale, (n, pi, 2, False, ("tuple", "iterator", "set"))) for pi in range(4)]
+        ctx.bounds["scale"] = {
+            "pattern_lengths": list(small) + list(mid) + list(big),
+            "underlying_patterns": "q*i mod n (3 multipliers), identity, reverse identity, rotation by n//2, "
+                                   "two-block layered",
+            "shadings": "empty, diagonal, all boxes, checkerboard, all but the diagonal (lengths >= 255: the first two)",
+            "index_sets": "every subset of size <= %s (lengths >= 31: <= 2) of the positions "
+                          "{0,1,2,7,8,9,31,32,33,255,256,257,n-2,n-1} below n; the whole probe set and it minus one "
+                          "element; even positions; odd positions; all positions; all minus one probe position"
+                          % ("3" if quick else "4"),
+            "forms": list(allforms),
+            "length_257": "thorough only: the three q*i mod n patterns and the identity, forms tuple/iterator/set",
+            "mims": "8 small q inside every pattern of length <= 12 of this family"}
+
     if want("mim"):
         n = len(_FAM["M2"])
         per = 8
@@ -750,21 +884,24 @@ def _dispatch(shard):
 
 def replay(ctx, rec):
     sub, case = rec["sub"], rec["case"]
-    if sub in ("submesh", "strongest"):
+    if sub in ("submesh", "strongest", "scale", "scale_strongest"):
         c = dict(case)
         I = tuple(c.pop("indices"))
         form = c.pop("form", None)
         spec = case_spec(c)
         patt, sh = spec[1], frozenset(spec[2])
         subp, reg = Y.region(patt, sh, I)
-        sem = Y.strongest_naive(patt, sh, I, len(patt) + 1)
-        arg = {"reversed": tuple(reversed(I)), "iterator": iter(I), "list": list(I)}.get(form, I)
+        if len(patt) <= 6:
+            sem = Y.strongest_naive(patt, sh, I, len(patt) + 1)
+        else:
+            sem = Y.strongest_by_insertion(patt, sh, I)
+        arg = FORMS[form](I) if form in FORMS else I
         try:
             got = result_of_sub(make(spec), arg)
         except Exception as exc:  # noqa
             ctx.violation(sub, case, {"exception": repr(exc)})
             return
-        want_sh = reg if sub == "submesh" else sem
+        want_sh = reg if sub in ("submesh", "scale") else sem
         if got != (subp, want_sh):
             ctx.violation(sub, case, {"expected": [subp, sorted(want_sh)], "got": [got[0], sorted(got[1])]})
     elif sub == "construct":
@@ -814,5 +951,5 @@ def replay(ctx, rec):
                 if R.mesh_contains(sigma, s[1], spec_shading(s)):
                     m |= 1 << bit
             _CMASK[s] = m
-        base = sub.split("_")[0] if sub.split("_")[0] in ("mim", "mim3", "mimh", "types") else "mim"
+        base = sub.split("_")[0] if sub.split("_")[0] in ("mim", "mim3", "mimh", "mims", "types") else "mim"
         check_mim(ctx, qspec, q, pspec, p, strong, True, base)
